@@ -1,5 +1,6 @@
 import SgVerif.C35.Model
 import SgVerif.C35.Modes
+import SgVerif.C35.AllocLemmas
 /-
 C35 — private parts of partially shared buffers are transferred exactly.  Property theorems.
 All theorems are for ALL block lists (any length), offsets and sizes (only `< 2^64`, as `size_t` values are).
@@ -495,5 +496,334 @@ example : modeOf false false false 30 65536 = .eager ∧ modeOf false true false
 example : ∀ m : Mode, transfer m (.shared [(8, 16), (32, 40)] 10) (.shared [(0, 20)] 0) 30 25 false (fun i => i + 100)
     (fun i => i + 100) (fun _ => 0) (fun _ => 0) 3 = 103 := by
   intro m; cases m <;> decide
+
+/-! ### the allocation bookkeeping behind `smpi_is_shared` (Alloc.lean): histories of malloc / free / lookup
+
+The copy callback learns the layout of a buffer from `smpi_is_shared`, i.e. from the table `allocs_metadata`.  For EVERY
+history of `smpi_shared_malloc_partial` / `smpi_shared_free` calls, whatever addresses the kernel hands out (a freed range
+may be reused at once, entirely, partly, or as part of a larger mapping that starts below it), the lookup of an address
+answers with the layout and offset of the LIVE allocation containing the address, and with "not shared" for an address in no
+live allocation (in particular in a freed one). -/
+
+/-- the table after a history is tied to the set of live allocations -/
+theorem table_tied_to_live (h : List AEvent) (hf : FreshRun [] h) : Tied (arun [] h) (lrun [] h) :=
+  tied_run h [] [] tied_nil hf
+
+/-- **lookup_sound** — whatever `smpi_is_shared` answers is the layout of a live allocation containing the address, with
+    the offset of the address in it -/
+theorem lookup_sound (h : List AEvent) (hf : FreshRun [] h) (ptr : Nat) (bl : List Block) (off : Nat)
+    (hl : isShared (arun [] h) ptr = some (bl, off)) :
+    ∃ a ∈ lrun [] h, a.contains ptr ∧ bl = privateOf a.size a.shared ∧ off = ptr - a.addr := by
+  have ht := table_tied_to_live h hf
+  rw [isShared_spec _ _ ht.1] at hl
+  unfold specEntry at hl
+  cases hfind : List.find? (inRange ptr) (arun [] h) with
+  | none => rw [hfind] at hl; cases hl
+  | some x =>
+    rw [hfind] at hl
+    have hin := (inRange_iff ptr x).mp (List.find?_some hfind)
+    obtain ⟨a, ha, hae⟩ := (ht.2 x).mp (List.mem_of_find?_eq_some hfind)
+    subst hae
+    simp only [Option.map_some, Option.some.injEq, Prod.mk.injEq] at hl
+    exact ⟨a, ha, hin, hl.1.symm, hl.2.symm⟩
+
+/-- **lookup_complete** — an address inside a live allocation is attributed to THAT allocation (its layout, its offset),
+    never to an older allocation that occupied the range -/
+theorem lookup_complete (h : List AEvent) (hf : FreshRun [] h) (ptr : Nat) (a : LiveA) (ha : a ∈ lrun [] h)
+    (hc : a.contains ptr) : isShared (arun [] h) ptr = some (privateOf a.size a.shared, ptr - a.addr) := by
+  have ht := table_tied_to_live h hf
+  rw [isShared_spec _ _ ht.1]
+  unfold specEntry
+  have hmem : entryOf a ∈ arun [] h := (ht.2 _).mpr ⟨a, ha, rfl⟩
+  cases hfind : List.find? (inRange ptr) (arun [] h) with
+  | none =>
+    have := List.find?_eq_none.mp hfind _ hmem
+    exact absurd ((inRange_iff ptr (entryOf a)).mpr hc) this
+  | some x =>
+    have hin := (inRange_iff ptr x).mp (List.find?_some hfind)
+    have := entry_unique _ ht.1 x (entryOf a) (List.mem_of_find?_eq_some hfind) hmem ptr hin hc
+    subst this
+    rfl
+
+/-- **lookup_none_outside_live** — an address in no live allocation (e.g. in a freed one) is ordinary memory for the copy -/
+theorem lookup_none_outside_live (h : List AEvent) (hf : FreshRun [] h) (ptr : Nat)
+    (hn : ∀ a ∈ lrun [] h, ¬ a.contains ptr) : isShared (arun [] h) ptr = none := by
+  cases hl : isShared (arun [] h) ptr with
+  | none => rfl
+  | some r =>
+    obtain ⟨a, ha, hc, _⟩ := lookup_sound h hf ptr r.1 r.2 hl
+    exact absurd hc (hn a ha)
+
+/-- a freed allocation is not live any more, whatever happened before (so `lookup_none_outside_live` applies to its range
+    until the kernel maps something there again) -/
+theorem freed_not_live (l : List LiveA) (addr : Nat) : ∀ a ∈ lstep l (.free addr), a.addr ≠ addr := by
+  intro a ha
+  have := (List.mem_filter.mp ha).2
+  simpa using this
+
+/-! #### the recorded private blocks are the complement of the requested shared blocks -/
+
+theorem sharedOk_tail (size : Nat) (a : Block) (rest : List Block) (h : SharedOk size (a :: rest)) :
+    a.1 < a.2 ∧ a.2 ≤ size ∧ SharedOk size rest ∧ ∀ c ∈ rest, a.2 < c.1 := by
+  induction rest generalizing a with
+  | nil => exact ⟨h.1, h.2, trivial, by simp⟩
+  | cons b r ih =>
+    obtain ⟨h1, h2, h3, h4⟩ := h
+    have hb := ih b h4
+    refine ⟨h1, h2, h4, ?_⟩
+    intro c hc
+    rcases List.mem_cons.mp hc with hc | hc
+    · subst hc; exact h3
+    · have := hb.2.2.2 c hc
+      omega
+
+theorem gapsThenTail_spec (size : Nat) (rest : List Block) : ∀ (a : Block), SharedOk size (a :: rest) → ∀ x,
+    (Covered (gapsThenTail size (a :: rest)) x ↔ a.2 ≤ x ∧ x < size ∧ ¬ Covered rest x) := by
+  induction rest with
+  | nil =>
+    intro a h x
+    unfold gapsThenTail
+    by_cases hl : a.2 < size
+    · simp only [hl, if_true]
+      constructor
+      · rintro ⟨b, hb, hx⟩
+        simp at hb; subst hb
+        exact ⟨hx.1, hx.2, by rintro ⟨c, hc, _⟩; cases hc⟩
+      · rintro ⟨h1, h2, _⟩
+        exact ⟨(a.2, size), by simp, h1, h2⟩
+    · simp only [hl, if_false]
+      constructor
+      · rintro ⟨b, hb, _⟩; cases hb
+      · rintro ⟨h1, h2, _⟩; omega
+  | cons b r ih =>
+    intro a h x
+    obtain ⟨h1, h2, h3, h4⟩ := h
+    have hb := sharedOk_tail size b r h4
+    have ihb := ih b h4 x
+    show Covered ((a.2, b.1) :: gapsThenTail size (b :: r)) x ↔ _
+    constructor
+    · rintro ⟨c, hc, hx⟩
+      rcases List.mem_cons.mp hc with hc | hc
+      · subst hc
+        refine ⟨hx.1, by have := hx.2; show x < size; simp at this; omega, ?_⟩
+        rintro ⟨d, hd, hdx⟩
+        have hx2 : x < b.1 := hx.2
+        rcases List.mem_cons.mp hd with hd | hd
+        · subst hd; omega
+        · have := hb.2.2.2 d hd; omega
+      · obtain ⟨g1, g2, g3⟩ := ihb.mp ⟨c, hc, hx⟩
+        refine ⟨by omega, g2, ?_⟩
+        rintro ⟨d, hd, hdx⟩
+        rcases List.mem_cons.mp hd with hd | hd
+        · subst hd; omega
+        · exact g3 ⟨d, hd, hdx⟩
+    · rintro ⟨g1, g2, g3⟩
+      by_cases hxb : x < b.1
+      · exact ⟨(a.2, b.1), by simp, g1, hxb⟩
+      · have hnb : ¬ (b.1 ≤ x ∧ x < b.2) := fun hh => g3 ⟨b, by simp, hh⟩
+        have hr : ¬ Covered r x := fun ⟨d, hd, hdx⟩ => g3 ⟨d, List.mem_cons_of_mem _ hd, hdx⟩
+        obtain ⟨c, hc, hcx⟩ := ihb.mpr ⟨by omega, g2, hr⟩
+        exact ⟨c, List.mem_cons_of_mem _ hc, hcx⟩
+
+/-- **privateOf_spec** — under the assertions of `smpi_shared_malloc_partial` on its argument, the `private_blocks`
+    recorded for an allocation cover exactly the bytes of the allocation lying in no requested shared block -/
+theorem privateOf_spec (size : Nat) (shared : List Block) (hne : shared ≠ []) (hok : SharedOk size shared) (x : Nat) :
+    Covered (privateOf size shared) x ↔ x < size ∧ ¬ Covered shared x := by
+  cases shared with
+  | nil => exact absurd rfl hne
+  | cons a rest =>
+    have ha := sharedOk_tail size a rest hok
+    have hg := gapsThenTail_spec size rest a hok x
+    unfold privateOf
+    constructor
+    · rintro ⟨c, hc, hx⟩
+      rcases List.mem_append.mp hc with hc | hc
+      · by_cases h0 : a.1 > 0
+        · simp only [h0, if_true] at hc
+          simp at hc; subst hc
+          have hx2 : x < a.1 := hx.2
+          refine ⟨by omega, ?_⟩
+          rintro ⟨d, hd, hdx⟩
+          rcases List.mem_cons.mp hd with hd | hd
+          · subst hd; omega
+          · have := ha.2.2.2 d hd; omega
+        · simp only [h0, if_false] at hc; cases hc
+      · obtain ⟨g1, g2, g3⟩ := hg.mp ⟨c, hc, hx⟩
+        refine ⟨g2, ?_⟩
+        rintro ⟨d, hd, hdx⟩
+        rcases List.mem_cons.mp hd with hd | hd
+        · subst hd; omega
+        · exact g3 ⟨d, hd, hdx⟩
+    · rintro ⟨g2, g3⟩
+      by_cases hxa : x < a.1
+      · have h0 : a.1 > 0 := by omega
+        refine ⟨(0, a.1), ?_, Nat.zero_le _, hxa⟩
+        simp [h0]
+      · have hna : ¬ (a.1 ≤ x ∧ x < a.2) := fun hh => g3 ⟨a, by simp, hh⟩
+        have hr : ¬ Covered rest x := fun ⟨d, hd, hdx⟩ => g3 ⟨d, List.mem_cons_of_mem _ hd, hdx⟩
+        obtain ⟨c, hc, hcx⟩ := hg.mpr ⟨by omega, g2, hr⟩
+        exact ⟨c, List.mem_append.mpr (Or.inr hc), hcx⟩
+
+theorem gapsThenTail_sorted (size : Nat) (rest : List Block) : ∀ (a : Block), SharedOk size (a :: rest) →
+    Sorted (gapsThenTail size (a :: rest)) ∧ ∀ c ∈ gapsThenTail size (a :: rest), a.2 ≤ c.1 ∧ c.2 ≤ size := by
+  induction rest with
+  | nil =>
+    intro a h
+    unfold gapsThenTail
+    by_cases hl : a.2 < size
+    · simp only [hl, if_true]
+      refine ⟨⟨hl, by simp, trivial⟩, ?_⟩
+      intro c hc; simp at hc; subst hc; exact ⟨Nat.le_refl _, Nat.le_refl _⟩
+    · simp only [hl, if_false]
+      exact ⟨trivial, by simp⟩
+  | cons b r ih =>
+    intro a h
+    obtain ⟨h1, h2, h3, h4⟩ := h
+    have hb := sharedOk_tail size b r h4
+    obtain ⟨is, ib⟩ := ih b h4
+    show Sorted ((a.2, b.1) :: gapsThenTail size (b :: r)) ∧ ∀ c ∈ (a.2, b.1) :: gapsThenTail size (b :: r), _
+    refine ⟨⟨h3, ?_, is⟩, ?_⟩
+    · intro c hc
+      have := (ib c hc).1
+      show b.1 ≤ c.1
+      omega
+    · intro c hc
+      rcases List.mem_cons.mp hc with hc | hc
+      · subst hc
+        exact ⟨Nat.le_refl _, by show b.1 ≤ size; omega⟩
+      · have := ib c hc
+        exact ⟨by omega, this.2⟩
+
+/-- the recorded private blocks are non-empty, increasing, disjoint, inside the allocation -/
+theorem privateOf_sorted (size : Nat) (shared : List Block) (hok : SharedOk size shared) :
+    Sorted (privateOf size shared) ∧ ∀ c ∈ privateOf size shared, c.2 ≤ size := by
+  cases shared with
+  | nil => exact ⟨trivial, by simp [privateOf]⟩
+  | cons a rest =>
+    have ha := sharedOk_tail size a rest hok
+    obtain ⟨gs, gb⟩ := gapsThenTail_sorted size rest a hok
+    unfold privateOf
+    by_cases h0 : a.1 > 0
+    · simp only [h0, if_true, List.singleton_append]
+      refine ⟨⟨h0, ?_, gs⟩, ?_⟩
+      · intro c hc
+        have := (gb c hc).1
+        show a.1 ≤ c.1
+        omega
+      · intro c hc
+        rcases List.mem_cons.mp hc with hc | hc
+        · subst hc; show a.1 ≤ size; omega
+        · exact (gb c hc).2
+    · simp only [h0, if_false, List.nil_append]
+      exact ⟨gs, fun c hc => (gb c hc).2⟩
+
+/-! #### the property over histories: bookkeeping + lookup + copy, in the three send modes -/
+
+/-- the requests of a history are accepted by `smpi_shared_malloc_partial` (its assertions) and lie in the address space -/
+def ReqOk : AEvent → Prop
+  | .malloc a s sh => sh ≠ [] ∧ SharedOk s sh ∧ a + s < W
+  | .free _ => True
+
+def LiveOk (a : LiveA) : Prop := a.shared ≠ [] ∧ SharedOk a.size a.shared ∧ a.addr + a.size < W
+
+theorem liveOk_run (h : List AEvent) : ∀ (l : List LiveA), (∀ a ∈ l, LiveOk a) → (∀ e ∈ h, ReqOk e) →
+    ∀ a ∈ lrun l h, LiveOk a := by
+  induction h with
+  | nil => intro l hl _; exact hl
+  | cons e rest ih =>
+    intro l hl he
+    apply ih (lstep l e) _ (fun e' he' => he e' (List.mem_cons_of_mem _ he'))
+    intro a ha
+    cases e with
+    | malloc ad s sh =>
+      rcases List.mem_cons.mp ha with ha | ha
+      · subst ha; exact he (.malloc ad s sh) (by simp)
+      · exact hl a ha
+    | free ad => exact hl a (List.mem_filter.mp ha).1
+
+/-- byte `x` of a message starting at `ptr` is private by the program's REQUEST: it lies in no requested shared block of the
+    live allocation containing the buffer (no condition for ordinary memory) -/
+def PrivateReq (l : List LiveA) (ptr x : Nat) : Prop :=
+  ∀ a ∈ l, a.contains ptr → ¬ Covered a.shared (x + (ptr - a.addr))
+
+/-- a message of `n` bytes at `ptr` lies inside the allocation containing its start -/
+def MsgFits (l : List LiveA) (ptr n : Nat) : Prop := ∀ a ∈ l, a.contains ptr → ptr + n ≤ a.addr + a.size
+
+theorem looked_up_kind_ok (h : List AEvent) (hf : FreshRun [] h) (hr : ∀ e ∈ h, ReqOk e) (ptr n x : Nat) (hx : x < n)
+    (hfit : MsgFits (lrun [] h) ptr n) (hp : PrivateReq (lrun [] h) ptr x) :
+    WfKind (kindOfLookup (isShared (arun [] h) ptr)) n ∧ PrivateIn (kindOfLookup (isShared (arun [] h) ptr)) x := by
+  cases hl : isShared (arun [] h) ptr with
+  | none => exact ⟨trivial, trivial⟩
+  | some r =>
+    obtain ⟨bl, off⟩ := r
+    obtain ⟨a, ha, hc, hbl, hoff⟩ := lookup_sound h hf ptr bl off hl
+    obtain ⟨hne, hok, hw⟩ := liveOk_run h [] (by simp) hr a ha
+    have hs := privateOf_sorted a.size a.shared hok
+    have hfa := hfit a ha hc
+    have hca : a.addr ≤ ptr ∧ ptr < a.addr + a.size := hc
+    subst hbl hoff
+    refine ⟨⟨hs.1, ?_, ?_⟩, ?_⟩
+    · intro b hb
+      have hb2 := hs.2 b hb
+      -- non-empty: from sortedness
+      have hlt : b.1 < b.2 := by
+        have : ∀ (l : List Block), Sorted l → ∀ b ∈ l, b.1 < b.2 := by
+          intro l
+          induction l with
+          | nil => intro _ b hb; cases hb
+          | cons c t ih =>
+            intro hsl b hb
+            rcases List.mem_cons.mp hb with hb | hb
+            · subst hb; exact hsl.1
+            · exact ih hsl.2.2 b hb
+        exact this _ hs.1 b hb
+      exact ⟨hlt, by omega⟩
+    · show ptr - a.addr + n < W
+      omega
+    · show Covered (privateOf a.size a.shared) (x + (ptr - a.addr))
+      exact (privateOf_spec a.size a.shared hne hok _).mpr ⟨by omega, hp a ha hc⟩
+
+/-- **private_bytes_transferred_after_any_history** — the property with the allocation bookkeeping in the loop: after ANY
+    history of shared allocations and frees (any addresses the kernel may hand out, freed ranges reused in any way), for a
+    send buffer at `ptrS` and a receive buffer at `ptrR` whose layouts the copy callback obtains from `smpi_is_shared`, in all
+    three send modes, every byte `x` of the transferred part that lies in no REQUESTED shared block of the live allocation
+    containing either buffer arrives with the value it had when the send started.  (Eager / detached: the callback sees the
+    heap copy, `seenBuffer`; the lookup of the heap copy's address is `none` as long as it lies in no live shared allocation —
+    that is the `.notShared` of `seenBuffer`.) -/
+theorem private_bytes_transferred_after_any_history (h : List AEvent) (hf : FreshRun [] h) (hr : ∀ e ∈ h, ReqOk e)
+    (m : Mode) (ptrS ptrR nSend nRecv : Nat) (viaTmp : Bool) (userAtSend userAtCopy dst tmp : Buf) (x : Nat)
+    (hx : x < Nat.min nSend nRecv)
+    (hfs : MsgFits (lrun [] h) ptrS (Nat.min nSend nRecv)) (hfr : MsgFits (lrun [] h) ptrR (Nat.min nSend nRecv))
+    (hps : PrivateReq (lrun [] h) ptrS x) (hpr : PrivateReq (lrun [] h) ptrR x)
+    (hstable : m = .rendezvous → userAtCopy = userAtSend) :
+    transfer m (kindOfLookup (isShared (arun [] h) ptrS)) (kindOfLookup (isShared (arun [] h) ptrR)) nSend nRecv viaTmp
+      userAtSend userAtCopy dst tmp x = userAtSend x := by
+  obtain ⟨ws, ps⟩ := looked_up_kind_ok h hf hr ptrS _ x hx hfs hps
+  obtain ⟨wr, pr⟩ := looked_up_kind_ok h hf hr ptrR _ x hx hfr hpr
+  exact private_bytes_transferred_all_modes m _ _ nSend nRecv viaTmp userAtSend userAtCopy dst tmp x ws wr hx ps pr hstable
+
+/-! #### non-vacuity and a sanity check of the state machine -/
+
+/-- the history of the missed seeded change: an allocation (first page private) at 0x50000 is freed, a larger one with
+    another layout (first page shared) is placed over its range starting below it; an address of the new allocation above the
+    old start is attributed to the NEW allocation -/
+example :
+    let h := [AEvent.malloc 0x50000 0x40000 [(0x1000, 0x40000)], .free 0x50000, .malloc 0x10000 0x80000 [(0, 0x1000)]]
+    FreshRun [] h ∧ isShared (arun [] h) 0x52000 = some ([(0x1000, 0x80000)], 0x42000) ∧
+      isShared (arun [] [AEvent.malloc 0x50000 0x40000 [(0x1000, 0x40000)], .free 0x50000]) 0x52000 = none := by
+  refine ⟨⟨⟨by decide, by simp⟩, trivial, ⟨by decide, by simp [lstep]⟩, trivial⟩, by decide, by decide⟩
+
+/-- the release really depends on the reference count: with a post-decrement test (`count-- == 0`) the freed entry stays
+    and the same lookup answers with the stale layout — the state machine distinguishes the two -/
+example :
+    let freeBad (m : MMap) (p : Nat) : MMap := match m.find p with
+      | some mt => if mt.count = 0 then m.erase p else m.set p { mt with count := mt.count - 1 }
+      | none => m
+    isShared (mallocStep (freeBad (mallocStep [] 0x50000 0x40000 [(0x1000, 0x40000)]) 0x50000) 0x10000 0x80000 [(0, 0x1000)])
+      0x52000 = some ([(0, 0x1000)], 0x2000) := by decide
+
+example : SharedOk 100 [(10, 20), (40, 100)] ∧ privateOf 100 [(10, 20), (40, 100)] = [(0, 10), (20, 40)] ∧
+    privateOf 100 [(0, 100)] = [] ∧ privateOf 100 [(0, 30), (50, 60)] = [(30, 50), (60, 100)] :=
+  ⟨by simp [SharedOk], by decide, by decide, by decide⟩
 
 end SgVerif.C35
